@@ -369,6 +369,8 @@ def battery():
 
 
 def run(ses, rep):
+    global M_DEPTH
+    M_DEPTH = 3 if rep.tier == "quick" else 5           # thorough: chains of 6 directories
     rep.assumptions += ["the file's directory is at or below the working directory (start index <= root index)",
                         "read_and_apply_overrides(file) succeeds and yields that file's configuration (+ overrides: C20)",
                         "HashMap get/insert behave as a map keyed by directory"]
